@@ -251,10 +251,27 @@ def run_task(task):
             return res
         if kind == "opt":
             from vlib import optrun
+            from vlib.afterfail import after_failures
+            import decimal
+            enc_, dec_ = c.data.encode_string, c.data.decode_string
+            bad = [lambda: enc_(None), lambda: enc_("abc"), lambda: enc_(b"abc"), lambda: dec_(None), lambda: dec_(5), lambda: dec_()]
+            with decimal.localcontext() as ctx_:
+                ctx_.prec = 2
+                for x in (b"Hello, World!", b"\x22\x7e\x50" * 11, bytes(range(256))):
+                    def good(x=x):
+                        a, b = bytearray(x), bytearray(x)
+                        enc_(a)
+                        dec_(b)
+                        return bytes(a), bytes(b)
+                    got = after_failures(bad, good)
+                    if got != ("ok", (refcodec.ref_encode_string(x), refcodec.ref_decode_string(x))):
+                        raise Violation("same_input_same_output", {"hex": x.hex(), "after_failed_calls": True}, "table image",
+                                        str(got)[:200], "valid calls after calls that raised")
+            res.extra["calls_after_failed_calls"] = 3
             xs = [bytes((i * 31 + k) % 256 for i in range(n)) for n in (0, 1, 2, 3, 7, 8, 33, 64) for k in (0, 0x22, 0x4F, 0x7E)]
             xs += [bytes([b]) * n for b in (0x50, 0x7E, 0xFF, 0x21) for n in (1, 2, 5)]
             jobs = [{"fn": f, "arg": x.hex()} for x in xs for f in ("encode_string", "decode_string")]
-            for flag in ("-O", "-OO", "-Werror"):
+            for flag in ("-O", "-OO", "-Werror", "-bb", "-Xdev"):
                 got = optrun.run(jobs, flag)
                 for job, g in zip(jobs, got):
                     x = bytes.fromhex(job["arg"])
